@@ -980,3 +980,79 @@ def gen_vars(rng, nmax=3, lmax=4, named=True):
 
 def rand_values(rng, vars_, scale=3.0):
     return {v.idx: np.array([round(rng.uniform(-scale, scale), 3) for _ in range(v.n)]) for v in vars_}
+
+
+# ----------------------------------------------------------------------
+# protection of the monitor itself
+def risky(node):
+    """True if the tree contains `sparse constant (+|-) function` with the constant on the left:
+    on the unchanged tree spmatrix.__sub__ with a non-matrix right operand can crash the interpreter."""
+    for n in node.nodes():
+        if n.op in ("add", "sub") and isinstance(n.kids[0], K) and n.kids[0].is_sparse:
+            return True
+    return False
+
+
+def survives(fn):
+    """run fn() in a forked child; returns None if the child ended normally (whatever fn did),
+    else the signal number that killed it"""
+    import os, sys
+    sys.stdout.flush(); sys.stderr.flush()
+    pid = os.fork()
+    if pid == 0:
+        try:
+            try:
+                fn()
+            except BaseException:
+                pass
+        finally:
+            os._exit(0)
+    _, st = os.waitpid(pid, 0)
+    if os.WIFSIGNALED(st):
+        return os.WTERMSIG(st)
+    return None
+
+
+def isolated(ctx, c, body):
+    """run body() (which records into the harness objects ctx / c) in a forked child and merge what it
+    recorded into the parent.  Returns None, or the signal number that killed the child."""
+    import os, sys, json, traceback
+    from vlib.harness import _jsonable
+    sys.stdout.flush(); sys.stderr.flush()
+    rd, wr = os.pipe()
+    pid = os.fork()
+    if pid == 0:
+        code = 0
+        try:
+            os.close(rd)
+            c0, nf0, ch0 = dict(ctx.counters), len(c.failed), c.checked
+            try:
+                body()
+            except Exception as e:
+                c.fail("harness-exception:%s" % type(e).__name__,
+                       "".join(traceback.format_exception(type(e), e, e.__traceback__))[-3000:])
+            pay = {"failed": c.failed[nf0:], "checked": c.checked - ch0, "sig": c.sig, "desc": _jsonable(c.desc),
+                   "counters": {k: v - c0.get(k, 0) for k, v in ctx.counters.items() if v != c0.get(k, 0)},
+                   "maxima": ctx.maxima, "samples": ctx.samples}
+            with os.fdopen(wr, "w") as f:
+                f.write(json.dumps(pay))
+        except BaseException:
+            code = 3
+        finally:
+            os._exit(code)
+    os.close(wr)
+    with os.fdopen(rd) as f:
+        data = f.read()
+    _, st = os.waitpid(pid, 0)
+    if os.WIFSIGNALED(st):
+        return os.WTERMSIG(st)
+    pay = json.loads(data)
+    c.failed.extend(pay["failed"]); c.checked += pay["checked"]; c.sig = pay["sig"]
+    c.desc.update(pay["desc"])
+    for k, v in pay["counters"].items():
+        ctx.count(k, v)
+    for k, v in pay["maxima"].items():
+        ctx.maxobs(k, v)
+    for smp in pay["samples"][len(ctx.samples):]:
+        ctx.sample(smp)
+    return None
